@@ -100,8 +100,8 @@ def ListOfDicts_from_json (truth : Term → Bool) : Out :=
     Out.raise [] "TypeError"
   else
     if truth (Term.sym "keys") then
-      let keys' : Term := (Term.app "set" [(Term.sym "keys")]);
-      let eff0 : Term := (Term.app "for" [(Term.sym "item"), data', (Term.app "block" [(Term.app "for" [(Term.sym "key"), (Term.app "Sub" [(Term.app "set" [(Term.sym "item")]), keys']), (Term.app "block" [(Term.app "del" [(Term.app "getitem" [(Term.sym "item"), (Term.sym "key")])])])])])]);
+      let keys' : Term := (Term.app "set()" [(Term.sym "keys")]);
+      let eff0 : Term := (Term.app "for" [(Term.sym "item"), data', (Term.app "block" [(Term.app "for" [(Term.sym "key"), (Term.app "Sub" [(Term.app "set()" [(Term.sym "item")]), keys']), (Term.app "block" [(Term.app "del" [(Term.app "getitem" [(Term.sym "item"), (Term.sym "key")])])])])])]);
       let eff1 : Term := (Term.app "for" [(Term.app "tuple" [(Term.sym "key"), (Term.sym "type")]), (Term.app ".items" [(Term.sym "types")]), (Term.app "block" [(Term.app "for" [(Term.sym "item"), data', (Term.app "block" [(Term.app "if" [(Term.app "In" [(Term.sym "key"), (Term.sym "item")]), (Term.app "block" [(Term.app "store" [(Term.app "getitem" [(Term.sym "item"), (Term.sym "key")]), (Term.app "call" [(Term.sym "type"), (Term.app "getitem" [(Term.sym "item"), (Term.sym "key")])])])]), (Term.app "block" [])])])])])]);
       Out.ret [eff0, eff1] (Term.app "cls" [data'])
     else
@@ -128,7 +128,7 @@ def ListOfDicts_read_json_signature : List String := ["cls", "path", "*", "encod
 /-- dataiter/list_of_dicts.py: ListOfDicts.read_csv (sha256 of the function source: a01be0e8f9a60cb9) -/
 def ListOfDicts_read_csv (truth : Term → Bool) : Out :=
   let eff0 : Term := (Term.app "with" [(Term.app "util.xopen" [(Term.sym "path"), (Term.sym "'rt'"), (Term.app "=encoding" [(Term.sym "encoding")])])]);
-  let rows' : Term := (Term.app "list" [(Term.app "csv.reader" [eff0, (Term.app "=dialect" [(Term.sym "'unix'")]), (Term.app "=delimiter" [(Term.sym "sep")])])]);
+  let rows' : Term := (Term.app "list()" [(Term.app "csv.reader" [eff0, (Term.app "=dialect" [(Term.sym "'unix'")]), (Term.app "=delimiter" [(Term.sym "sep")])])]);
   if (!truth rows') then
     Out.ret [eff0] (Term.app "cls" [(Term.app "list" [])])
   else
@@ -137,11 +137,11 @@ def ListOfDicts_read_csv (truth : Term → Bool) : Out :=
       let drop' : Term := (Term.app "ListComp" [(Term.sym "i"), (Term.app "in" [(Term.sym "i"), (Term.app "range" [(Term.app "len" [(Term.app "getitem" [rows', (Term.int (0 : Int))])])]), (Term.app "if" [(Term.app "NotIn" [(Term.app "getitem" [colnames', (Term.sym "i")]), (Term.sym "keys")])])])]);
       let eff1 : Term := (Term.app "for" [(Term.sym "row"), rows', (Term.app "block" [(Term.app "for" [(Term.sym "i"), (Term.app "reversed" [drop']), (Term.app "block" [(Term.app "del" [(Term.app "getitem" [(Term.sym "row"), (Term.sym "i")])])])])])]);
       let colnames' : Term := (Term.app "ListComp" [(Term.sym "x"), (Term.app "in" [(Term.sym "x"), colnames', (Term.app "if" [(Term.app "In" [(Term.sym "x"), (Term.sym "keys")])])])]);
-      let data' : Term := (Term.app "cls" [(Term.app "GeneratorExp" [(Term.app "dict" [(Term.app "zip" [colnames', (Term.sym "x")])]), (Term.app "in" [(Term.sym "x"), rows', (Term.app "if" [])])])]);
+      let data' : Term := (Term.app "cls" [(Term.app "GeneratorExp" [(Term.app "dict()" [(Term.app "zip" [colnames', (Term.sym "x")])]), (Term.app "in" [(Term.sym "x"), rows', (Term.app "if" [])])])]);
       let eff2 : Term := (Term.app "for" [(Term.app "tuple" [(Term.sym "key"), (Term.sym "type")]), (Term.app ".items" [(Term.sym "types")]), (Term.app "block" [(Term.app "for" [(Term.sym "item"), data', (Term.app "block" [(Term.app "if" [(Term.app "In" [(Term.sym "key"), (Term.sym "item")]), (Term.app "block" [(Term.app "store" [(Term.app "getitem" [(Term.sym "item"), (Term.sym "key")]), (Term.app "call" [(Term.sym "type"), (Term.app "getitem" [(Term.sym "item"), (Term.sym "key")])])])]), (Term.app "block" [])])])])])]);
       Out.ret [eff0, eff1, eff2] data'
     else
-      let data' : Term := (Term.app "cls" [(Term.app "GeneratorExp" [(Term.app "dict" [(Term.app "zip" [colnames', (Term.sym "x")])]), (Term.app "in" [(Term.sym "x"), rows', (Term.app "if" [])])])]);
+      let data' : Term := (Term.app "cls" [(Term.app "GeneratorExp" [(Term.app "dict()" [(Term.app "zip" [colnames', (Term.sym "x")])]), (Term.app "in" [(Term.sym "x"), rows', (Term.app "if" [])])])]);
       let eff1 : Term := (Term.app "for" [(Term.app "tuple" [(Term.sym "key"), (Term.sym "type")]), (Term.app ".items" [(Term.sym "types")]), (Term.app "block" [(Term.app "for" [(Term.sym "item"), data', (Term.app "block" [(Term.app "if" [(Term.app "In" [(Term.sym "key"), (Term.sym "item")]), (Term.app "block" [(Term.app "store" [(Term.app "getitem" [(Term.sym "item"), (Term.sym "key")]), (Term.app "call" [(Term.sym "type"), (Term.app "getitem" [(Term.sym "item"), (Term.sym "key")])])])]), (Term.app "block" [])])])])])]);
       Out.ret [eff0, eff1] data'
 
